@@ -28,4 +28,63 @@ theorem pnorm_ends (ex tr : ℝ → ℝ) (x : ℝ) :
     have c4 : (0 : ℝ) < x := by linarith
     simp [pNorm, c1, c2, c3, c4]
 
+/-- **Reflection.**  `pNorm (-x) = 1 - pNorm x` in exact arithmetic, for every `exp` and every odd
+`trunc`, on `|x| < 8.2924` and on `37.5193 ≤ |x|`.  (Between the two cut-offs the code computes
+the two tails by different formulas: see `pnorm_reflect_gap`.) -/
+theorem pnorm_reflect (ex tr : ℝ → ℝ) (htr : ∀ z, tr (-z) = -tr z) (x : ℝ)
+    (hx : |x| < upCut ∨ lowCut ≤ |x|) : pNorm ex tr (-x) = 1 - pNorm ex tr x := by
+  have h0 := cut1_pos
+  have h12 := cut1_lt_cut2
+  have h2u := cut2_lt_upCut
+  have hul := upCut_lt_lowCut
+  rcases hx with hx | hx
+  · -- |x| < upCut : the same branch is taken at x and -x
+    rw [pNorm_real, pNorm_real, abs_neg]
+    by_cases c1 : |x| ≤ cut1
+    · simp only [c1, if_true, central_real, centralTemp_neg]; ring
+    · simp only [c1, if_false]
+      have hx0 : x ≠ 0 := by
+        intro h; apply c1; rw [h, abs_zero]; exact le_of_lt h0
+      by_cases c2 : |x| ≤ cut2
+      · simp only [c2, if_true, middle_real, abs_neg]
+        rcases lt_or_gt_of_ne hx0 with hn | hp
+        · have : ¬ (0 < x) := not_lt.mpr (le_of_lt hn)
+          simp [this, hn]
+        · have : ¬ (0 < -x) := by linarith
+          simp [this, hp]
+      · simp only [c2, if_false]
+        have hb := abs_lt.mp hx
+        have r1 : -lowCut < x ∧ x < upCut := ⟨by linarith [hb.1], hb.2⟩
+        have r2 : -lowCut < -x ∧ -x < upCut := ⟨by linarith [hb.2], by linarith [hb.1]⟩
+        simp only [r1, r2, and_self, if_true, far_real, farTail_neg ex tr htr]
+        rcases lt_or_gt_of_ne hx0 with hn | hp
+        · have : ¬ (0 < x) := not_lt.mpr (le_of_lt hn)
+          simp [this, hn]
+        · have : ¬ (0 < -x) := by linarith
+          simp [this, hp]
+  · -- both ends are exact
+    rcases le_abs'.mp hx with h | h
+    · rw [(pnorm_ends ex tr x).1 h, (pnorm_ends ex tr (-x)).2 (by linarith)]; ring
+    · rw [(pnorm_ends ex tr x).2 (by linarith), (pnorm_ends ex tr (-x)).1 (by linarith)]; ring
+
+/-- **What holds between the cut-offs** `8.2924 ≤ x < 37.5193`: the upper value is the constant 1
+while the lower value is still computed by the asymptotic tail formula, so in exact arithmetic
+`pNorm (-x) + pNorm x = 1 + farTail x`; the two agree only up to the size of the lower tail
+(`< 1.2e-16` there, below the rounding unit of 1). -/
+theorem pnorm_reflect_gap (ex tr : ℝ → ℝ) (htr : ∀ z, tr (-z) = -tr z) (x : ℝ)
+    (h1 : upCut ≤ x) (h2 : x < lowCut) :
+    pNorm ex tr x = 1 ∧ pNorm ex tr (-x) = farTail ex tr x := by
+  have h0 := cut1_pos
+  have h12 := cut1_lt_cut2
+  have h2u := cut2_lt_upCut
+  have hul := upCut_lt_lowCut
+  refine ⟨(pnorm_ends ex tr x).2 h1, ?_⟩
+  have hy : |x| = x := abs_of_pos (by linarith)
+  have c1 : ¬ (|x| ≤ cut1) := by rw [hy]; intro; linarith
+  have c2 : ¬ (|x| ≤ cut2) := by rw [hy]; intro; linarith
+  have r : -lowCut < -x ∧ -x < upCut := ⟨by linarith, by linarith⟩
+  have c4 : ¬ (0 < -x) := by linarith
+  rw [pNorm_real, abs_neg]
+  simp only [c1, c2, r, and_self, if_true, if_false, far_real, c4, farTail_neg ex tr htr]
+
 end Bpp.C08
